@@ -22,7 +22,7 @@ CFG_ACTIONS = ["AddStatic", "AddConnected", "AddLocal", "AddIface"]
 WORLD = {
     "EX_lan": dict(T=2, G=1, R=1, mtu=104),
     "EX_p2p": dict(T=2, G=1, R=2, mtu=104),
-    "EX_sim": dict(T=25, G=70, R=2, mtu=124),
+    "EX_sim": dict(T=6, G=9, R=2, mtu=124),
 }
 
 
@@ -31,7 +31,7 @@ def canon(x):
 
 
 def sort_exp(beh):
-  """canonical order for the set-valued fields of exported expectations (the adapter sorts the same way)"""
+  """canonical order for the set-valued fields of exported expectations (the adapters sort the same way)"""
   for st in beh:
     e = st["exp"]
     if "tbl" in e:
@@ -40,7 +40,14 @@ def sort_exp(beh):
       o["adv"] = sorted(o["adv"])
     for r in (e.get("net") or {}).values():
       r["tbl"] = sorted(r["tbl"])
+    for k in ("q", "sent"):
+      if k in e:
+        e[k] = sorted(e[k])
   return beh
+
+
+def decode(raw):
+  return sort_exp(json.loads(json.loads(raw)))
 
 
 def sample_raw(raws, n, seed):
@@ -49,54 +56,277 @@ def sample_raw(raws, n, seed):
   if len(raws) > n:
     random.Random(seed).shuffle(idx)
     idx = sorted(idx[:n])
-  return [sort_exp(json.loads(json.loads(raws[i]))) for i in idx]
+  return [decode(raws[i]) for i in idx]
 
 
-def check_model(ctx, name, module, cfg, actions, spec_dir="rip", timeout=1500, workers=8):
-  r = tlc.run(spec_dir, module, cfg, tag="X12", timeout=timeout, workers=workers)
-  if r.violated:
-    raise tlc.TLCError("spec %s %s violates its own property %s:\n%s" % (module, cfg, r.violated, r.error_trace))
-  tlc.require_coverage(r, actions, name)
-  ctx.add_model(name, r)
-  return r
+def distinct_prefixes(behs, per=2):
+  """-simulate prints every candidate last step of a random walk: keep at most `per` behaviours per walk"""
+  seen = {}
+  out = []
+  for b in behs:
+    k = core.fp([[s["a"], s.get("args")] for s in b[:-1]])
+    if seen.get(k, 0) < per:
+      seen[k] = seen.get(k, 0) + 1
+      out.append(b)
+  return out
+
+
+class _Probe(object):
+  """stand-in context for negative controls: counts the mismatches replay reports, records nothing"""
+  def __init__(self):
+    self.traces = 0
+    self.reports = []
+
+  def case(self, *a, **kw):
+    pass
+
+  def report(self, sig, replay):
+    self.reports.append(sig)
+    return "violation"
+
+
+def must_reject(adapter, beh, params, corrupt, what):
+  """negative control: the same behaviour with one expectation corrupted must be reported as a mismatch"""
+  bad = copy.deepcopy(beh)
+  if not corrupt(bad):
+    raise tlc.TLCError("negative control %s: nothing to corrupt" % what)
+  p = _Probe()
+  core.replay(p, adapter, [bad], params=params, procs=1)
+  if not p.reports:
+    raise tlc.TLCError("negative control %s: corrupted expectation was accepted by the replay" % what)
+
+
+def corrupt_metric(beh):
+  for st in reversed(beh):
+    for row in st["exp"].get("tbl", []):
+      if row[4] == "dyn":
+        row[2] = row[2] - 1 if row[2] > 1 else row[2] + 1
+        return True
+  return False
+
+
+def corrupt_ttl(beh):
+  for st in reversed(beh):
+    for row in st["exp"].get("tbl", []):
+      if row[6] in ("to", "gc") and row[7] > 0:
+        row[7] -= 1
+        return True
+  return False
+
+
+def corrupt_adv(beh):
+  for st in reversed(beh):
+    for o in (st["exp"].get("out") or {}).values():
+      if o["adv"]:
+        o["adv"] = o["adv"][:-1]
+        o["sizes"] = [len(o["adv"])] if o["adv"] else []
+        return True
+  return False
+
+
+def corrupt_net(beh):
+  for st in reversed(beh):
+    for r in (st["exp"].get("net") or {}).values():
+      for row in r["tbl"]:
+        if row[4] == "dyn" and row[2] < 16:
+          row[2] += 1
+          return True
+  return False
+
+
+P2P = {"r1": "r1", "r2": "r2", "r3": "r3", "h": "h"}
+LANIF = {"r1": "lan", "r2": "lan", "r3": "lan", "h": "h"}
+TRI = [["r1", "r2"], ["r2", "r3"], ["r1", "r3"]]
+NET = {
+    "EXN_line": dict(routers=["r1", "r2", "r3"], links=[["r1", "r2"], ["r2", "r3"]], stubs=[], ifof=P2P, T=6, G=4, R=1, S=2),
+    "EXN_tri": dict(routers=["r1", "r2", "r3"], links=TRI, stubs=[["h", "r3"]], ifof=P2P, T=4, G=2, R=1, S=2),
+    "EXN_lan": dict(routers=["r1", "r2", "r3"], links=TRI, stubs=[["h", "r3"]], ifof=LANIF, T=4, G=2, R=1, S=2),
+    "EXN_count": dict(routers=["r1", "r2", "r3"], links=TRI, stubs=[["h", "r3"]], ifof=P2P, T=4, G=2, R=1, S=2),
+}
+BIGSTACK = {"JAVA_TOOL_OPTIONS": "-Xss32m"}     # responses of 70 entries are folded recursively by the spec
+NET_ACTIONS = ["Boot", "Send", "Fire", "Deliver", "Timeout", "Garbage", "Tick"]
+
+
+def _lap(ctx, what):
+  import time
+  now = time.time()
+  ctx.notes.setdefault("wall_by_phase", {})[what] = round(now - getattr(ctx, "_lap", ctx.t0), 1)
+  ctx._lap = now
 
 
 def run(ctx):
   quick = ctx.tier == "quick"
   ctx.rule = ("behaviours exported by TLC from Rip.tla / RipNet.tla (edge cover: shortest path to every abstract "
-              "state + each outgoing transition; -simulate runs with the code's own timer constants) replayed on the "
+              "state + each outgoing transition; -simulate runs; the counting-to-infinity scenario) replayed on the "
               "real rip_core router(s); distinct = distinct action/argument sequences; non-trivial = contains at "
-              "least one RIP response")
+              "least one RIP response / delivered datagram")
   ctx.assumptions = [
       "one router: <= 3 neighbours on 2 interfaces, <= 3 prefixes (+ /32 routes of neighbours and own addresses); "
-      "exhaustive worlds use T=3 G=2 R=2 (T=2 G=1 in the odd-entries world), simulations and traces the code's 25/70/2",
+      "exhaustive worlds use T=3 G=2 R=2 (T=2 G=1 in the odd-entries world), simulations T=6 G=9 R=2, recorded "
+      "traces the code's own 25/70/2",
+      "network: 3 routers (line with one link failure; triangle and LAN with a host that dies), S=2 T=6|4 G=4|2 R=1; "
+      "a datagram is never delayed but everything due at one instant happens in any order; triangle/LAN liveness "
+      "is checked under the SlowLink scenario constraint with one boot alignment (the full graphs exceed the budget)",
       "time is integral; timers that are due at the same instant may fire in any order (each is its own action)",
       "RIP messages are built with pox.lib.packet.rip, packed, and parsed again on the other side",
       "the minimal router subclass copies LinuxRIPRouter.run/send_updates and the static/local route constructors "
       "of ovs_rip / linux_rip (harness/x12_env.py)",
   ]
-  # 1. the properties on the model
-  jobs = [("Rip LAN world", "MC_lan.cfg", RIP_ACTIONS + CFG_ACTIONS)]
-  if not quick:
-    jobs += [("Rip point-to-point world", "MC_p2p.cfg", RIP_ACTIONS + ["AddStatic", "AddIface"]),
-             ("Rip odd-entries world", "MC_odd.cfg", RIP_ACTIONS)]
-  res = tlc.run_many([dict(spec_dir="rip", module="MCRip", cfg=c, tag="X12", timeout=1500, workers=4) for _, c, _ in jobs],
-                     parallel=3)
-  for (name, cfg, acts), r in zip(jobs, res):
+  # ---- all TLC runs of the tier, concurrently
+  J = lambda module, cfg, **kw: dict(dict(spec_dir="rip", module=module, cfg=cfg, tag="X12", timeout=1700), **kw)
+  X = dict(workers=1, coverage=False)
+  nsim = 12 if quick else 120
+  jobs = {
+      "MC_lan": J("MCRip", "MC_lan.cfg", workers=4),
+      "NET_counts": J("MCRipNet", "NET_tri_counts.cfg", workers=2, expect_violation=True),
+      "EX_lan": J("MCRip", "EX_lan.cfg", **X),
+      "EX_p2p": J("MCRip", "EX_p2p.cfg", **X),
+      "EX_sim": J("MCRip", "EX_sim.cfg", simulate=dict(num=30 if quick else 400), depth=61, seed=ctx.seed + 1, **X),
+      "EXN_count": J("MCRipNet", "EXN_count.cfg", **X),
+  }
+  for w in ("line", "tri", "lan"):
+    jobs["EXN_" + w] = J("MCRipNet", "EXN_%s.cfg" % w, simulate=dict(num=nsim), depth=101, seed=ctx.seed + 2, **X)
+  if quick:
+    jobs["NET_line0"] = J("MCRipNet", "NET_line0.cfg", workers=2)
+  else:
+    jobs.update({
+        "MC_p2p": J("MCRip", "MC_p2p.cfg", workers=4),
+        "MC_odd": J("MCRip", "MC_odd.cfg", workers=4),
+        "NET_line": J("MCRipNet", "NET_line.cfg", workers=2),
+        "NET_tri_slow": J("MCRipNet", "NET_tri_slow.cfg", workers=2),
+        "NET_lan_slow": J("MCRipNet", "NET_lan_slow.cfg", workers=2),
+    })
+  names = list(jobs)
+  res = dict(zip(names, tlc.run_many([jobs[n] for n in names], parallel=8)))
+
+  _lap(ctx, "tlc")
+  ctx.notes["tlc_wall"] = {n: round(r.wall, 1) for n, r in res.items()}
+  # ---- 1. the properties on the models (with the vacuity guard)
+  models = [("MC_lan", "Rip LAN world", RIP_ACTIONS + CFG_ACTIONS),
+            ("MC_p2p", "Rip point-to-point world", RIP_ACTIONS + ["AddStatic", "AddIface"]),
+            ("MC_odd", "Rip odd-entries world", RIP_ACTIONS + ["AddIface"]),
+            ("NET_line0", "RipNet line, no failure (safety + convergence)", ["Boot", "Send", "Fire", "Deliver", "Tick"]),
+            ("NET_line", "RipNet line, one link failure (safety + convergence)", NET_ACTIONS + ["LinkDown"]),
+            ("NET_tri_slow", "RipNet triangle + dying host, SlowLink scenario (safety + convergence)", NET_ACTIONS),
+            ("NET_lan_slow", "RipNet LAN + dying host, SlowLink scenario (safety + convergence)", NET_ACTIONS)]
+  for key, name, acts in models:
+    if key not in res:
+      continue
+    r = res[key]
     if r.violated:
-      raise tlc.TLCError("spec MCRip %s violates its own property %s:\n%s" % (cfg, r.violated, r.error_trace))
+      raise tlc.TLCError("spec %s violates its own property %s:\n%s" % (key, r.violated, r.error_trace))
     tlc.require_coverage(r, acts, name)
     ctx.add_model(name, r)
-  # 2. spec -> code: every transition of the abstract graph of the small worlds
+  r = res["NET_counts"]
+  if r.violated != "NeverCounts":
+    raise tlc.TLCError("vacuous network model: no router ever counts beyond 5 hops towards the dead host "
+                       "(NeverCounts was expected to be violated, TLC says %r)" % (r.violated,))
+  ctx.add_model("RipNet triangle: witness that the model counts to infinity (NeverCounts violated as expected)", r)
+
+  # ---- 2. spec -> code, one router: every transition of the small worlds, random deep behaviours
   nontriv = lambda b: any(s["a"] in ("Response", "Deliver") for s in b)
   for cfg in ["EX_lan", "EX_p2p"]:
-    r = tlc.run("rip", "MCRip", cfg + ".cfg", workers=1, coverage=False, tag="X12", timeout=1500)
-    raws = r.tagged_raw("T")
+    raws = res[cfg].tagged_raw("T")
     if not raws:
       raise tlc.TLCError("no behaviours exported by %s" % cfg)
-    behs = sample_raw(raws, 4000 if quick else len(raws), ctx.seed + 7)
+    behs = sample_raw(raws, 2500 if quick else len(raws), ctx.seed + 7)
     st = core.replay(ctx, ADAPTER, behs, params=WORLD[cfg], nontrivial=nontriv)
     ctx.notes["replay_" + cfg] = dict(exported=len(raws), behaviours=len(behs), **st)
+    if cfg == "EX_lan":
+      ok = [behs[i] for i in core.replay.last_ok if len(behs[i]) >= 4]
+      for corrupt, what in ((corrupt_metric, "metric"), (corrupt_ttl, "timer"), (corrupt_adv, "advertisement")):
+        cand = [b for b in ok if corrupt(copy.deepcopy(b))]
+        if not cand:
+          raise tlc.TLCError("negative control %s: no behaviour to corrupt" % what)
+        must_reject(ADAPTER, cand[len(cand) // 2], WORLD[cfg], corrupt, what)
+      ctx.notes["replay_negative_controls"] = ["metric", "timer", "advertisement", "network metric"]
+  behs = distinct_prefixes([decode(x) for x in res["EX_sim"].tagged_raw("H")])
+  if len(behs) < 20:
+    raise tlc.TLCError("simulation exported %d behaviours" % len(behs))
+  st = core.replay(ctx, ADAPTER, behs, params=WORLD["EX_sim"], nontrivial=nontriv, chunk=10)
+  ctx.notes["replay_EX_sim"] = dict(behaviours=len(behs), depth=60, **st)
+
+  _lap(ctx, "replay_router")
+  # ---- 3. spec -> code, network
+  for cfg in ["EXN_line", "EXN_tri", "EXN_lan"]:
+    behs = distinct_prefixes([decode(x) for x in res[cfg].tagged_raw("H")])
+    if len(behs) < nsim // 2:
+      raise tlc.TLCError("network simulation %s exported %d behaviours" % (cfg, len(behs)))
+    st = core.replay(ctx, NET_ADAPTER, behs, params=NET[cfg], nontrivial=nontriv, chunk=4)
+    ctx.notes["replay_" + cfg] = dict(behaviours=len(behs), depth=100, **st)
+    if cfg == "EXN_tri":
+      must_reject(NET_ADAPTER, behs[core.replay.last_ok[0]], NET[cfg], corrupt_net, "network metric")
+  raws = res["EXN_count"].tagged_raw("T")
+  if not raws:
+    raise tlc.TLCError("the counting-to-infinity scenario exported no behaviour")
+  behs = sample_raw(raws, 24 if quick else 400, ctx.seed + 9)
+  peak = max(row[2] for b in behs for s in b for r in s["exp"]["net"].values() for row in r["tbl"] if row[0] == "h" and row[2] < 16)
+  if peak != 15:
+    raise tlc.TLCError("counting scenario: highest finite metric towards the dead host is %d, not 15" % peak)
+  st = core.replay(ctx, NET_ADAPTER, behs, params=NET["EXN_count"], nontrivial=nontriv, chunk=2)
+  ctx.notes["replay_EXN_count"] = dict(exported=len(raws), behaviours=len(behs), peak_metric=peak, **st)
+
+  _lap(ctx, "replay_network")
+  # ---- 4. code -> spec: random driver on the real router (the code's own 25/70/2), traces validated by TLC
+  ntr = 150 if quick else 2500
+  traces = core.run_driver("props.X12:drive", [(ctx.seed * 100003 + i, 80) for i in range(ntr)])
+  bad = copy.deepcopy(next(t for t in traces if any(e["a"] == "Timeout" for e in t)))
+  for e in bad:                         # negative control: a route that "timed out" one metric short of infinity
+    if e["a"] == "Timeout":
+      for row in e["obs"]["tbl"]:
+        if row[0] == e["args"]["k"]:
+          row[2] = 15
+      break
+  r, rej = tracecheck.validate("rip", "TraceRip", "Trace.cfg", traces + [bad], tag="X12")
+  ctx.add_model("TraceRip (validation of %d implementation traces)" % ntr, r)
+  if len(traces) not in [t for t, _ in rej]:
+    raise tlc.TLCError("negative control (timed-out route with metric 15) was accepted by the trace spec")
+  for t, matched in rej:
+    if t == len(traces):
+      continue
+    ev = traces[t][matched]
+    ctx.report(dict(action=ev["a"], via="trace", wf=ev["wf"]),
+               dict(trace=traces[t][:matched + 1], failing_step=matched, note="TLC rejected the trace at this event"))
+  ctx.traces += len(traces)
+  for t in traces[:3000]:
+    ctx.case(core.fp([[e["a"], e["args"]] for e in t]), sample=None)
+  ctx.notes["trace_validation"] = dict(traces=len(traces), events=sum(len(t) for t in traces),
+                                       rejected=len(rej) - 1, negative_control_rejected=True)
+  _lap(ctx, "traces")
+  # ---- 5. the same with up to 140 routes: package_responses at the real MTUs (DEFAULT_MTU: 66 entries per packet)
+  nb = 12 if quick else 200
+  bulk = core.run_driver("props.X12:drive_bulk", [ctx.seed * 7919 + i for i in range(nb)])
+  bad = None
+  for t in bulk:                        # negative control: one entry moved from the first packet to the second
+    for j, e in enumerate(t):
+      if e["a"] in ("Query", "Periodic") and any(len(p["sizes"]) > 1 and p["sizes"][0] > 1 for p in e["obs"]["out"].values()):
+        bad = copy.deepcopy(t[:j + 1])
+        p = next(p for p in bad[j]["obs"]["out"].values() if len(p["sizes"]) > 1 and p["sizes"][0] > 1)
+        p["sizes"][0] -= 1
+        p["sizes"][1] += 1
+        break
+    if bad:
+      break
+  if bad is None:
+    raise tlc.TLCError("bulk traces: no update was split into several packets")
+  r, rej = tracecheck.validate("rip", "TraceRip", "TraceBig.cfg", bulk + [bad], tag="X12", extra_env=BIGSTACK)
+  ctx.add_model("TraceRip, bulk world (validation of %d implementation traces)" % nb, r)
+  if len(bulk) not in [t for t, _ in rej]:
+    raise tlc.TLCError("negative control (entry moved to the next packet) was accepted by the trace spec")
+  for t, matched in rej:
+    if t == len(bulk):
+      continue
+    ev = bulk[t][matched]
+    ctx.report(dict(action=ev["a"], via="bulk-trace", wf=ev["wf"]),
+               dict(trace=[dict(a=e["a"], args=e["args"] if e["a"] != "Response" else dict(n=e["args"]["n"], i=e["args"]["i"], ents=len(e["args"]["ents"])))
+                           for e in bulk[t][:matched + 1]],
+                    observed=ev["obs"]["out"], failing_step=matched, note="TLC rejected the trace at this event"))
+  ctx.traces += len(bulk)
+  for t in bulk:
+    ctx.case(core.fp([[e["a"], e["args"]] for e in t]), sample=None)
+  ctx.notes["bulk_trace_validation"] = dict(traces=len(bulk), max_packet=max([s for t in bulk for e in t for p in e["obs"]["out"].values() for s in p["sizes"]] + [0]),
+                                            rejected=len(rej) - 1, negative_control_rejected=True)
+  _lap(ctx, "bulk_traces")
   ctx.exhaustive = not quick
 
 
@@ -222,3 +452,49 @@ def drive(arg):
       break
   ad.close()
   return tr
+
+
+def record(ad, steps):
+  """run a fixed history on the real router and log it in the trace schema"""
+  tr = []
+  for a, args in steps:
+    try:
+      obs = ad.step(a, args)
+      wf = wellformed(obs)
+    except Exception as e:
+      obs, wf = {"exc": type(e).__name__}, False
+    if not wf:
+      obs = copy.deepcopy(DUMMY)
+    tr.append(dict(a=a, args=args, obs=obs, wf=wf))
+    if not wf:
+      break
+  ad.close()
+  return tr
+
+
+def drive_bulk(seed):
+  """a router that learns up to 140 routes and advertises them with the MTUs that matter (the router's own
+  send_updates uses rip_core's DEFAULT_MTU): package_responses at real sizes"""
+  from harness.adapters_x12 import Adapter
+  rnd = random.Random(seed)
+  ad = Adapter(T=25, G=70, R=2, mtu=None)
+  n = rnd.choice([1, 24, 25, 26, 49, 50, 51, 65, 66, 67, 75, 100, 132, 133, 140]) if seed % 3 else rnd.randint(1, 140)
+  keys = ["p%d" % j for j in range(1, n + 1)]
+  rnd.shuffle(keys)
+  steps = []
+  while keys:
+    k = rnd.randint(1, 40)          # (the spec folds a response recursively: TLC's stack bounds its length)
+    part, keys = keys[:k], keys[k:]
+    steps.append(("Response", dict(n=rnd.choice("ac"), i="i1" if rnd.random() < 0.5 else "none",
+                                   ents=[dict(k=x, m=rnd.choice([1, 2, 15]), tag=0, af="inet") for x in part])))
+  # note: i is overwritten below - a response comes in on the interface its sender lives on (or none)
+  for a, args in steps:
+    if args["i"] != "none":
+      args["i"] = ad.ifof[args["n"]]
+  steps.append(("Advance", dict(d=2)))
+  steps.append(("Fire", dict(x=0)))
+  for mtu in rnd.sample([1400, 1385, 1384, 1383, 584, 565, 564, 563, 512, 104, 85, 84, 64], 6):
+    steps.append(("Query", dict(i=rnd.choice(["i1", "i2"]), force=True, so=False, mtu=mtu)))
+  steps.append(("Periodic", dict(x=0)))
+  steps.append(("Advance", dict(d=20)))
+  return record(ad, steps)
